@@ -140,6 +140,11 @@ def run(ctx):
         if ok is None:
             r7.missing(key)
         else:
+            if key == "ROLLBACK-verified":
+                r7.check(ok, key, "after the ROLLBACK round trip checkin_cleanup looks at the transaction state again (still in a transaction => bad)",
+                         "checkin_cleanup trusts the ROLLBACK blindly: Server::query returns Ok whatever the server answered, and a connection left in copy-in mode inside a transaction consumes the ROLLBACK message as a protocol violation "
+                         "(ErrorResponse, ReadyForQuery 'E'); the connection goes back to the pool inside a failed transaction block and the next client's statements all fail (or, after a plain refusal, run inside the old transaction)", where, wit)
+                continue
             r7.check(ok, key, "checkin_cleanup rolls an open transaction back before returning Ok", "checkin_cleanup can return Ok with the previous client's transaction still open (the ROLLBACK is built but not sent on some path): "
                      "the next client's statements run inside that transaction and its COMMIT makes the abandoned work durable", where, wit)
     r7.check(bool(rel), "release-through-checkin_cleanup", "the release path of the transaction loop calls checkin_cleanup (%d site(s))" % len(rel), "handle no longer calls checkin_cleanup on the release path")
